@@ -209,6 +209,34 @@ def run(ctx):
     wit = _path_avoiding(xc, None, {e.id for e in emms}, {e.id for e in epis})
     rep.check(wit is None, "D4-SKELETON", where(xc), "emms-before-epilogue", "clear_emms is called on every path to the epilogue",
               "the epilogue of orc_x86_compile is reachable without clear_emms")
+    # ---- D1c: every callee-saved register the generated code may write is pushed ------------------
+    # In the 64-bit save loop the push must be emitted whenever used_regs[r] && save_regs[r] && r != rbp holds, whatever
+    # else the guard looks at (decision-tree evaluation of the guard, through predicate helpers): a register that is
+    # allocated and callee-saved but skipped by the prologue comes back clobbered.
+    from guardeval import Walk, loop_body_region
+
+    def fixed(text):
+        if "used_regs[" in text or "save_regs[" in text:
+            return True
+        if "X86_EBP" in text and "==" in text:
+            return False
+        if "X86_EBP" in text and "!=" in text:
+            return True
+        return None
+    for fn_, emit in ((pro, "orc_x86_emit_push"), (epi, "orc_x86_emit_pop")):
+        loops_ = [lp for lp in fn_.walk() if lp.k == "ForStmt" and any(c.name == emit for c in lp.c[3].walk() if c.k == "CallExpr")]
+        if len(loops_) != 1:
+            raise AnalysisBroken("%s: register save loop not found" % fn_.name)
+        body, region = loop_body_region(fn_, loops_[0])
+        if body is None:
+            raise AnalysisBroken("%s: loop body not identified in the CFG" % fn_.name)
+        w = Walk(fn_, fixed)
+        esc = w.escapes(body, lambda e: e.k == "CallExpr" and e.name == emit, region)
+        rep.check(esc is None, "D1-SAVE-PREDICATE", where(fn_), "%s-whenever-used-and-callee-saved" % emit.replace("orc_x86_emit_", ""),
+                  "a used callee-saved register other than rbp is always %s" % ("pushed" if "push" in emit else "popped"),
+                  "%s can skip a register although it is used and callee-saved, when %s: the generated function returns with that register clobbered" %
+                  (fn_.name, {k: v for k, v in (esc or {}).items() if fixed(k) is None}), line=loops_[0].line)
+
     # ---- D1b: the pushes and pops really name the register they print ----------------------
     from x86enc import check_rex_coverage
     check_rex_coverage(db, rep, "D1-PUSH-ENCODING", only={"STACK"})
